@@ -169,3 +169,16 @@ class FirstIter:
             if atom[0] == "b" and atom[1] in self.flags:
                 out = (pol == self.flags[atom[1]])
         return out
+
+
+def optchar_in(fact):
+    """Set form of OPTCHAR-EQ: (o, {code points}, polarity) - `o` is Some(c) with c in the set."""
+    r = optchar_eq(fact)
+    if r is not None:
+        return (r[0], {r[1]}, r[2])
+    atom, pol = fact
+    if atom[0] == "in":
+        x = atom[1]
+        if x[0] == "field" and x[2] == "0" and x[1][0] == "as" and x[1][2] == "Some" and all(c[0] == "char" for c in atom[2]):
+            return (x[1][1], {c[1] for c in atom[2]}, pol)
+    return None
